@@ -244,6 +244,8 @@ def make_abstract_oracle(cases):
         if len(recs) != len(st):
             return "abstract session has %d steps, implementation %d" % (len(recs), len(st))
         for k, (r, s_) in enumerate(zip(recs, st)):
+            if s_["r"] != "ok":
+                return "step %d: the call returned %s with a working sink" % (k, s_["r"])
             t, c, h, calls = r.split("|")
             ih = ",".join(e.hex() for e in hist_entries_of(s_["hist"])) or "-"
             if s_["hist"] == "-":
@@ -884,6 +886,9 @@ def c14(ck):
             return "malformed session output / crash: " + io[:200]
         before, after_ok, k = nofault[case]
         f = st[k]
+        for k_, s_ in enumerate(st):
+            if s_["r"] == "err" and "XW" not in s_["sink"] and "XF" not in s_["sink"]:
+                return "call %d returned Err although no sink call failed in it; sink calls: %s" % (k_, s_["sink"])
         if f["r"] != "err":
             if "XW" in f["sink"] or "XF" in f["sink"]:
                 return "sink call failed during call %d but the call returned Ok (error swallowed); sink calls: %s" % (k, f["sink"])
